@@ -51,6 +51,19 @@ ValidSlice(s) == SliceShapeOK(s) /\ LET d == s.toks  M == MatchArr(d) IN
   /\ \A i \in 1..Len(d) : (d[i].k = "o" /\ OnOpenSide(s, M, i)) =>
         \A j \in 1..Len(KidsOf(d, M, i)) : AllowsMarks(d[i].t, KidsOf(d, M, i)[j].m)
 
+(* The slice of a replace-around step: the node that directly receives the gap content (the innermost node around
+   the inner offset `insert`) gets its content when the step is applied, so that content is judged then (by the code
+   under test: insert_into) and not beforehand - the slice of every wrap step is an empty, by itself invalid,
+   wrapper.  All other closed nodes, the ancestors of the receiving node included, must be valid as in ValidSlice. *)
+ValidSliceAround(s, insert) == SliceShapeOK(s) /\ LET d == s.toks  M == MatchArr(d)  k == s.os + insert
+                                                       \* the node that directly receives the gap: the innermost one around the insertion point
+                                                       Recv(i) == d[i].k = "o" /\ i <= k /\ k < M[i]
+                                                                  /\ ~(\E j \in (i + 1)..k : d[j].k = "o" /\ k < M[j]) IN
+  /\ \A i \in 1..Len(d) : TokMarksOK(d[i])
+  /\ \A i \in 1..Len(d) : (d[i].k = "o" /\ ~OnOpenSide(s, M, i) /\ ~Recv(i)) => ValidKids(d[i].t, KidsOf(d, M, i))
+  /\ \A i \in 1..Len(d) : (d[i].k = "o" /\ (OnOpenSide(s, M, i) \/ Recv(i))) =>
+        \A j \in 1..Len(KidsOf(d, M, i)) : AllowsMarks(d[i].t, KidsOf(d, M, i)[j].m)
+
 (* ------------------------- validity predicates (C07) ------------------- *)
 (* can_replace(from, to, repl[start..end]) on a node of type pt with children
    kids (index ranges, 0-based from/to as in the library) *)
